@@ -69,6 +69,16 @@ CHECKS = {
                 "ymin<=ymax assumed; at most 400 decisions per path (never hit)",
         "technique": "symbolic execution of the Python source on z3 real terms + SMT (QF_NRA) obligations per path, counterexample replay",
     },
+    "C15": {
+        "text": "Reported versions are symbolic digit strings inside the real banner; both min_version layers, EBB3.connect (solver-chosen "
+                "handshake: empty / non-EBB / banner / SerialException per probe, open failure, no board; fresh and re-used object) and "
+                "the five legacy gated helpers (V answered by a version, OK, Err, nothing, or a banner without version) are executed "
+                "symbolically; results, transmitted commands and error state are proved equivalent to numeric component-wise order "
+                "against each threshold, so a lexicographic comparison or a gate that lets an unknown version through is a counterexample.",
+        "note": "packaging.version.parse replaced by a reference parser yielding integer terms (validated against packaging on ~1400 pairs "
+                "each run); three components of 1-2 symbolic digits; serial.Serial/comports stubbed",
+        "technique": "symbolic execution of the Python source on symbolic strings + SMT (linear integer arithmetic) obligations per path, counterexample replay",
+    },
     "C16": {
         "text": "The variable, nickname and motor-enable helpers run through the real command/query code against a simulated board whose "
                 "state is symbolic (RAM = z3 array with arbitrary contents; mode, motor flags, single-motor option arbitrary; nickname "
